@@ -304,6 +304,7 @@ _N13_SET_COLLECT = re.compile(r"(?<![\w.])(\w+)(\s*\.into_iter\(\)\s*\.collect\(
 _N13_CLONED_COLLECT = re.compile(r"(?<![\w.])(\w+)(\s*\.iter\(\)\s*\.cloned\(\)\s*\.collect\(\))")
 _N13_FILTER_COUNT = re.compile(r"(?<![\w.])(\w+(?:\.\w+)*(?:\[[^\]\n]*\])?)(\s*\.iter\(\)\s*\.filter\()(?=\|)")
 _N13_TAIL_COUNT = re.compile(r"\)\s*\.count\(\)")
+_N13_RETAIN = re.compile(r"(?<![\w.])(\w+(?:\.\w+)*)(\s*\.retain\()(?=\|)")
 _N13_SET_FILTER = re.compile(r"(?<![\w.])(\w+(?:\s*\.\s*\w+)*)(\s*\.iter\(\)\s*\.filter\()(?=\|)")
 _N13_TAIL_COPIED_COLLECT = re.compile(r"\)\s*\.copied\(\)\s*\.collect\(\)")
 _N13_FILTER_MAP = re.compile(r"(?<![\w.])(\w+(?:\s*\.\s*\w+)*)(\s*\.iter\(\)\s*\.filter_map\()(?=\|)")
@@ -407,6 +408,12 @@ def norm_iter_chains(text, m, body_open, body_close):
         edits.append(Edit(mm.start(1), "", "verif_filter_count(&", "norm:N13"))
         edits.append(Edit(mm.start(2), text[mm.start(2) : mm.end(2)], ", ", "norm:N13"))
         edits.append(Edit(t.start(), text[t.start() : t.end()], ")", "norm:N13"))
+    # `Q.retain(C)` on a VecDeque -> `verif_deque_retain(&mut Q, C)` (vstd has no specification of VecDeque::retain)
+    for mm in _N13_RETAIN.finditer(m, body_open, body_close):
+        if closure_at(mm.end()) is None:
+            continue
+        edits.append(Edit(mm.start(1), "", "verif_deque_retain(&mut ", "norm:N13"))
+        edits.append(Edit(mm.start(2), text[mm.start(2) : mm.end(2)], ", ", "norm:N13"))
     # `S.iter().filter(C).copied().collect()` over a HashSet of Copy keys -> `verif_set_filter_collect(&S, C)`
     for mm in _N13_SET_FILTER.finditer(m, body_open, body_close):
         c = closure_at(mm.end())
